@@ -56,7 +56,7 @@ def pfc(name, prop, entry, n, l, bs, unwind=None, memalloc=None, **kw):
     cdefs['VS_CAP'] = defs['VS_BOUND']
     cdefs.update(kw.pop('cdefs', {}))
     kw.setdefault('timeout', 240)
-    us = {'^(h_|_ZL)': (n + 2) * (l + 4), '_ZSt14__relocate': cdefs['IR2C_MAXELEMS'] + 1, '_ZNSo5write': cdefs['IR2C_MAXBYTES'] + 1, '_ZNSi4read': cdefs['IR2C_MAXBYTES'] + 1}
+    us = {'^(h_|_ZL)': (n + 2) * (l + 4), '_ZSt14__relocate': cdefs['IR2C_MAXELEMS'] + 1, '_ZNSo5write': cdefs['IR2C_MAXBYTES'] + 1, '_ZNSi4read': cdefs['IR2C_MAXBYTES'] + 1, 'verif_stream_equal': defs['VS_BOUND'] + 1}
     if grow: us['_Z10ReallocatePPhm'] = cdefs['IR2C_MAXBYTES'] + 1
     us.update(kw.pop('unwindset', {}))
     return O(name, prop, 'h_pfc.cpp', entry, PFC_TUS, defs=defs, libdefs={'LIBCSD_VERIF_MEMALLOC': memalloc}, cdefs=cdefs,
@@ -78,8 +78,8 @@ def c01():
 
 def px():
     obs = []
-    for e in ['c04x', 'c12', 'saveload']:
-        obs.append(pfc('px.%s' % e, 'PX', 'h_pfc_' + e, 3, 2, 2, defs={'LENV': '{1,2,2}'}, timeout=900))
+    for e in ['c12', 'saveload', 'c14']:
+        obs.append(pfc('px.%s' % e, 'PX', 'h_pfc_' + e, 3, 2, 2, defs={'LENV': '{1,2,2}', 'BS2': 3}, timeout=900))
     return obs
 
 
@@ -103,17 +103,73 @@ def ux():
     obs.append(unit('ux.dacbvls', 'UX', 'h_dacbvls', DAC_TUS, defs=dict(d, BVLS_SAVE=None), cdefs=c, unwind=8, unwindset={'_ZNSo5write': 33, '_ZNSi4read': 33, 'verif_stream_equal': 97}))
     d1 = {'NSEQ': 2, 'SEQLENS': '{1,1}', 'MAXSEQ': 1, 'VS_BOUND': 96}
     obs.append(unit('ux.dacvls.access.len1', 'UX', 'h_dacvls_access', DAC_TUS, defs=d1, cdefs=c, unwind=8))
+    for nb, fa in [(33, 4), (65, 2), (32, 1), (1, 20)]:
+        us = {'^(h_|_ZL)': 2 * nb + 40, '_ZNSo5write': 33, '_ZNSi4read': 33, 'verif_stream_equal': 97}
+        for part in (1, 2, 3, 4):
+            b = {'NBITS': nb, 'FACTOR': fa, 'VS_BOUND': 96, 'PART': part}
+            obs.append(unit('ux.bitseqrg.n%d.f%d.p%d' % (nb, fa, part), 'UX', 'h_bitseqrg', BITSEQ_TUS, defs=b, cdefs=c, unwind=10, unwindset=us, solver='kissat'))
+        b = {'NBITS': nb, 'FACTOR': fa, 'VS_BOUND': 96, 'PART': 1}
+        obs.append(unit('ux.bitseqrg.saveload.n%d.f%d' % (nb, fa), 'UX', 'h_bitseqrg_saveload', BITSEQ_TUS, defs=b, cdefs=c, unwind=10, unwindset=us, solver='kissat'))
     b = {'NBITS': 33, 'FACTOR': 4, 'VS_BOUND': 96}
-    obs.append(unit('ux.bitseqrg', 'UX', 'h_bitseqrg', BITSEQ_TUS, defs=b, cdefs=c, unwind=36))
-    obs.append(unit('ux.bitseqrg.saveload', 'UX', 'h_bitseqrg_saveload', BITSEQ_TUS, defs=b, cdefs=c, unwind=36))
-    obs.append(unit('ux.bitstring', 'UX', 'h_bitstring', BITSEQ_TUS, defs=b, cdefs=c, unwind=36))
+    obs.append(unit('ux.bitstring', 'UX', 'h_bitstring', BITSEQ_TUS, defs=b, cdefs=c, unwind=10, unwindset={'^(h_|_ZL)': 100, '_ZNSo5write': 33, '_ZNSi4read': 33}))
     for e in ['contiguous', 'duplicates', 'nocontiguous', 'stringvector']:
         obs.append(unit('ux.it.' + e, 'UX', 'h_it_' + e, [], defs={'NIDS': 4}, cdefs=c, unwind=8, unwindset={'^h_': 20}))
     obs.append(unit('ux.reallocate', 'UX', 'h_reallocate', [], defs={'RLEN': 4}, cdefs=c, unwind=18))
     return obs
 
 
-TABLE = {'C17': c17, 'C01': c01, 'PX': px, 'UX': ux}
+CSD_TUS = """StringDictionary.cpp StringDictionaryFMINDEX.cpp StringDictionaryHASHHF.cpp StringDictionaryHASHRPDAC.cpp StringDictionaryHASHRPF.cpp
+StringDictionaryHASHUFFDAC.cpp StringDictionaryHHTFC.cpp StringDictionaryHTFC.cpp StringDictionaryPFC.cpp StringDictionaryRPDAC.cpp StringDictionaryRPFC.cpp
+StringDictionaryRPHTFC.cpp StringDictionaryXBW.cpp FMIndex/SSA.cpp FMIndex/SuffixArray.cpp Hash/HashBBdh.cpp Hash/HashBdh.cpp Hash/Hash.cpp Hash/HashDAC.cpp Hash/Hashdh.cpp
+Huffman/huff.cpp Huffman/Huffman.cpp HuTucker/HuTucker.cpp RePair/RePair.cpp utils/DAC_BVLS.cpp utils/DAC_VLS.cpp utils/LogSequence.cpp utils/VByte.cpp
+utils/Coder/BinaryNode.cpp utils/Coder/Coder.cpp utils/Coder/DecodingTableBuilder.cpp utils/Coder/DecodingTable.cpp utils/Coder/DecodingTree.cpp utils/Coder/StatCoder.cpp
+XBW/TrieNode.cpp XBW/XBW.cpp""".split() + BITSEQ_TUS
+
+KINDS = {
+    # kind: (class, tag constant, loader call, unsupported-operation flags)
+    'PFC': ('StringDictionaryPFC', 'PFC', None, ['NO_SUBSTR']),
+    'RPFC': ('StringDictionaryRPFC', 'RPFC', None, ['NO_SUBSTR']),
+    'HTFC': ('StringDictionaryHTFC', 'HTFC', None, ['NO_SUBSTR']),
+    'HHTFC': ('StringDictionaryHHTFC', 'HHTFC', None, ['NO_SUBSTR']),
+    'RPHTFC': ('StringDictionaryRPHTFC', 'RPHTFC', None, ['NO_SUBSTR']),
+    'RPDAC': ('StringDictionaryRPDAC', 'RPDAC', None, ['NO_SUBSTR']),
+    'HASHHF': ('StringDictionaryHASHHF', 'HASHHF', 'KIND::load(in, HASHUFF)', ['NO_PREFIX', 'NO_SUBSTR', 'NO_RANK']),
+    'HASHRPF': ('StringDictionaryHASHRPF', 'HASHRPF', 'KIND::load(in, HASHRP)', ['NO_PREFIX', 'NO_SUBSTR', 'NO_RANK']),
+    'HASHUFFDAC': ('StringDictionaryHASHUFFDAC', 'HASHUFFDAC', None, ['NO_PREFIX', 'NO_SUBSTR', 'NO_RANK']),
+    'HASHRPDAC': ('StringDictionaryHASHRPDAC', 'HASHRPDAC', 'KIND::load(in, 0)', ['NO_PREFIX', 'NO_SUBSTR', 'NO_RANK']),
+    'FMINDEX': ('StringDictionaryFMINDEX', 'FMINDEX', None, []),
+    'XBW': ('StringDictionaryXBW', 'DXBW', None, ['NO_TABLE']),
+}
+
+
+def kind_ob(name, prop, entry, kind, flags=(), **kw):
+    cls, tag, lc, _ = KINDS[kind]
+    defs = {'KIND': cls, 'KTAG': tag}
+    if lc: defs['LOADCALL(in)'] = lc
+    for f in flags: defs[f] = None
+    kw.setdefault('unwind', 2)
+    kw.setdefault('cdefs', {'IR2C_MAXBYTES': 16, 'IR2C_MAXELEMS': 4, 'VS_CAP': 32})
+    kw.setdefault('extra_stub', BITSEQ_STUBS)
+    kw.setdefault('extra_c', ['stub_bitseq_loaders.c'])
+    kw.setdefault('unwindset', {'^(h_|_ZL)': 40, 'verif_stream': 40, '_ZNSi4read': 9, '_ZNSo5write': 9})
+    return O(name, prop, 'h_kinds.cpp', entry, CSD_TUS, defs=defs, bounds='kind %s, default-constructed object with symbolic element count' % kind, **kw)
+
+
+def kx():
+    obs = []
+    for k in KINDS:
+        obs.append(kind_ob('kx.guard.' + k.lower(), 'KX', 'h_kind_extract_guard', k))
+        if KINDS[k][3]: obs.append(kind_ob('kx.unsup.' + k.lower(), 'KX', 'h_kind_unsupported', k, flags=KINDS[k][3]))
+        obs.append(kind_ob('kx.wrongtag.' + k.lower(), 'KX', 'h_kind_load_wrong_tag', k))
+    loaders = ['_ZN22StringDictionaryHASHHF4loadERSij', '_ZN26StringDictionaryHASHUFFDAC4loadERSi', '_ZN23StringDictionaryHASHRPF4loadERSij', '_ZN25StringDictionaryHASHRPDAC4loadERSij',
+               '_ZN19StringDictionaryPFC4loadERSi', '_ZN20StringDictionaryRPFC4loadERSi', '_ZN20StringDictionaryHTFC4loadERSi', '_ZN21StringDictionaryHHTFC4loadERSi',
+               '_ZN22StringDictionaryRPHTFC4loadERSi', '_ZN21StringDictionaryRPDAC4loadERSi', '_ZN23StringDictionaryFMINDEX4loadERSi', '_ZN19StringDictionaryXBW4loadERSi']
+    obs.append(O('kx.dispatch', 'KX', 'h_kinds.cpp', 'h_generic_dispatch', ['StringDictionary.cpp'], unwind=6, cdefs={'VS_CAP': 32}, extra_stub=loaders + ['verif_sentinel'],
+                 extra_c=['stub_kind_loaders.c'], unwindset={'^(h_|_ZL)': 40}, bounds='all 2^32 tags, all load options'))
+    return obs
+
+
+TABLE = {'C17': c17, 'C01': c01, 'PX': px, 'UX': ux, 'KX': kx}
 
 
 def obligations(prop):
